@@ -73,6 +73,9 @@ func (pe *shellVariablesEncoder) doEncode(w *io.Writer, node *CandidateNode, pat
 		}
 		return nil
 	case AliasNode:
+		if node.Alias == nil {
+			return fmt.Errorf("cannot encode alias *%v, it has no target", node.Value)
+		}
 		return pe.doEncode(w, node.Alias, path)
 	default:
 		return fmt.Errorf("Unsupported node %v", node.Tag)
